@@ -175,11 +175,11 @@ def run_case(case):
             rng.shuffle(o)
             orders.append(o)
         kill = case["kill"] if case.get("creation") != "batch" else None
-        short = 0 if kill else None
+        short = rng.randrange(k) if kill else None      # which instance gets the short timeout / is stopped (also one created after longer-lived ones)
         kill_at = rng.randrange(1, len(order)) if kill else None
         if case.get("creation") == "lazy" and kill == "stop":
             # the stopped instance finishes its script first and is stopped; a later instance is then started (engine reuse must not leak)
-            late = max(scripts)
+            late = max(i for i in scripts if i != short)
             rest = [i for i in order if i not in (short, late)]
             rng.shuffle(rest)
             first = [short] * len(scripts[short])
